@@ -62,7 +62,11 @@ class Run:
                 f = ob.func
                 if f in funcs:
                     funcs[f]['status'] = 'not proved'
-            if len(samples) < 12 and (r['status'] != 'proved' or len(samples) < 6):
+            kinds_seen = getattr(self, '_kinds_seen', None)
+            if kinds_seen is None:
+                kinds_seen = self._kinds_seen = {}
+            if (r['status'] != 'proved' and len(samples) < 40) or kinds_seen.get(ob.kind, 0) < 2:
+                kinds_seen[ob.kind] = kinds_seen.get(ob.kind, 0) + 1
                 samples.append(dict(obligation=ob.name, kind=ob.kind, status=r['status'], backend=r['backend'],
                                     time_s=round(r['time'], 3), what=ob.note[:200]))
         notes = set()
@@ -79,6 +83,7 @@ class Run:
                 lemmas={ln: dict(doc=LEMMAS[ln].doc, proof='z3 induction schema' if LEMMAS[ln].lean is None else 'Lean: ' + LEMMAS[ln].lean)
                         for ln in cfg.get('lemmas', [])},
                 backends=backends, solver_time_s=round(solver_time, 2),
+                obligations_by_kind=self.by_kind(obligations, results),
                 samples=samples,
                 files_read=sorted(self.program.files_read),
                 bounded=bounded, translation_validation=tv, selftest=selftests,
@@ -95,6 +100,14 @@ class Run:
         os.makedirs(os.path.join(HERE, 'evidence'), exist_ok=True)
         with open(os.path.join(HERE, 'evidence', '%s.json' % self.prop), 'w') as f:
             json.dump(ev, f, indent=1, default=str)
+
+    def by_kind(self, obligations, results):
+        d = {}
+        for ob, r in zip(obligations, results):
+            e = d.setdefault(ob.kind, dict(total=0, proved=0))
+            e['total'] += 1
+            e['proved'] += r['status'] == 'proved'
+        return d
 
     # ------------------------------------------------------------------ replay files
     def write_replay(self, obname, payload):
